@@ -470,6 +470,15 @@ func main() {
 	for _, k := range gkeys {
 		p("def gs_%s : GStmt := %s\n", identOf(k), gstmts[k])
 	}
+	p("\n/-- the richer rendering of the functions that build byte strings (every append, byte literal and literal field a statement) -/\n")
+	rkeys := make([]string, 0, len(gstmtsRich))
+	for k := range gstmtsRich {
+		rkeys = append(rkeys, k)
+	}
+	sort.Strings(rkeys)
+	for _, k := range rkeys {
+		p("def gsp_%s : GStmt := %s\n", identOf(k), gstmtsRich[k])
+	}
 	p("\n/-- parameter names, in order, of the rendered functions -/\ndef gsParams : List (String × List String) := [\n")
 	for i, k := range gkeys {
 		sep := ","
